@@ -36,18 +36,28 @@ theorem EvoN.of_evo {nw cr : Prop} {s s' : State} (ids : List TaskId) (e : Evo n
   fun t' ht' => Or.inl (e t' ht')
 
 /-- **one operation**: task records only move forward (`TRel`; the crash counter is unchanged unless the operation
-is the loss of a worker by failure), new records only for submitted ids; the sends and starts it emits -/
+is the loss of a worker by failure), new records only for submitted ids; the sends it emits — in particular
+(third clause) a task that was locked (Running / RunningMultiNode / Finished) when the operation began is only
+sent with a strictly larger instance id — and the tasks its `started` callbacks name -/
 theorem step_fx {s s' : State} {op : Op} {o : Out} (hn : (taskIds s.tasks).Nodup) (h : step s op = .ok (s', o)) :
-    EvoN False (¬ op.isFailureLoss) op.newIds s s' ∧ Tr False s (sends o.msgs) s' ∧ St s' (starts o.cbs) ∧
+    EvoN False (¬ op.isFailureLoss) op.newIds s s' ∧ Tr False s (sends o.msgs) s' ∧
+    (∀ p ∈ sends o.msgs, ∃ t ∈ s.tasks, t.id = p.1 ∧ t.inst ≤ p.2 ∧ (locked t.state → t.inst < p.2)) ∧
     ∀ q ∈ starts o.cbs, ∃ t ∈ s.tasks, t.id = q.1 := by
-  have of_fx : ∀ {nw cr : Prop}, Fx nw cr s (sends o.msgs) (starts o.cbs) s' → (¬ op.isFailureLoss → cr) →
-      EvoN False (¬ op.isFailureLoss) op.newIds s s' ∧ Tr False s (sends o.msgs) s' ∧ St s' (starts o.cbs) ∧
+  have of_fx : ∀ {cr : Prop}, Fx True cr s (sends o.msgs) (starts o.cbs) s' → (¬ op.isFailureLoss → cr) →
+      EvoN False (¬ op.isFailureLoss) op.newIds s s' ∧ Tr False s (sends o.msgs) s' ∧
+      (∀ p ∈ sends o.msgs, ∃ t ∈ s.tasks, t.id = p.1 ∧ t.inst ≤ p.2 ∧ (locked t.state → t.inst < p.2)) ∧
       ∀ q ∈ starts o.cbs, ∃ t ∈ s.tasks, t.id = q.1 :=
-    fun f hc => ⟨EvoN.of_evo _ (f.evo.mono (fun x => x.elim) hc), f.tr.weaken, f.st, f.sx⟩
+    fun f hc => ⟨EvoN.of_evo _ (f.evo.mono (fun x => x.elim) hc), f.tr.weaken,
+      fun p hp => by
+        obtain ⟨t, ht, a, b, c, _⟩ := f.tr.lo p hp
+        exact ⟨t, ht, a, b, c trivial⟩, f.sx⟩
+  have of_nil : sends o.msgs = [] →
+      ∀ p ∈ sends o.msgs, ∃ t ∈ s.tasks, t.id = p.1 ∧ t.inst ≤ p.2 ∧ (locked t.state → t.inst < p.2) := by
+    intro e p hp; rw [e] at hp; cases hp
   cases op with
   | newWorker w =>
     simp only [step, State.newWorker] at h; cases h
-    exact of_fx (nw := True) (cr := True) (Fx.silent (Evo.of_tasks rfl)) (fun _ => trivial)
+    exact of_fx (cr := True) (Fx.silent (Evo.of_tasks rfl)) (fun _ => trivial)
   | removeWorker w reason f order rets =>
     refine of_fx (removeWorker_fx (nw := True) hn h) ?_
     intro hf
@@ -55,10 +65,10 @@ theorem step_fx {s s' : State} {op : Op} {o : Out} (hn : (taskIds s.tasks).Nodup
     cases f <;> simp_all
   | newRq rqv =>
     simp only [step] at h; cases h
-    exact of_fx (nw := True) (cr := True) (Fx.silent (Evo.of_tasks rfl)) (fun _ => trivial)
+    exact of_fx (cr := True) (Fx.silent (Evo.of_tasks rfl)) (fun _ => trivial)
   | newTasks nts =>
     obtain ⟨a, b, c⟩ := newTasks_evo (nw := False) (cr := ¬ (Op.newTasks nts).isFailureLoss) h
-    refine ⟨a, by rw [b]; exact Tr.nil _ _ _, by rw [c]; exact St.nil _, fun q hq => ?_⟩
+    refine ⟨a, by rw [b]; exact Tr.nil _ _ _, of_nil b, fun q hq => ?_⟩
     rw [c] at hq; cases hq
   | cancel ids =>
     obtain ⟨a, b, c⟩ := cancelTasks_evo (nw := True) (cr := True) (by simpa [step] using h)
@@ -66,9 +76,11 @@ theorem step_fx {s s' : State} {op : Op} {o : Out} (hn : (taskIds s.tasks).Nodup
   | update w us rets => exact of_fx (taskUpdate_fx (nw := True) (cr := True) hn h) (fun _ => trivial)
   | retracted w ids => exact of_fx (retractResponse_fx (nw := True) (cr := True) hn h) (fun _ => trivial)
   | schedule sol =>
-    obtain ⟨a, b, c, _⟩ := schedule_fx (cr := True) hn h
-    refine ⟨EvoN.of_evo _ (a.evo.mono id (fun _ => trivial)), b, by rw [c]; exact St.nil _, fun q hq => ?_⟩
-    rw [c] at hq; cases hq
+    obtain ⟨a, b, c, _, d⟩ := schedule_fx (cr := True) hn h
+    refine ⟨EvoN.of_evo _ (a.evo.mono id (fun _ => trivial)), b, fun p hp => ?_, fun q hq => ?_⟩
+    · obtain ⟨t, ht, e1, e2, e3⟩ := d p hp
+      exact ⟨t, ht, e1, e2, fun hl => absurd hl e3⟩
+    · rw [c] at hq; cases hq
 
 /-! ### C03: only ready tasks are sent -/
 
@@ -133,7 +145,7 @@ theorem step_ready {s s' : State} {op : Op} {o : Out} (hi : Inv s) (hok : OpOk2 
   | retracted w ids => exact of_fx (retractResponse_fx (nw := True) (cr := True) hi.nd h)
   | schedule sol =>
     have h' : s.schedule sol = .ok (s', o) := h
-    obtain ⟨_, _, _, hpost⟩ := schedule_fx (cr := True) hi.nd h'
+    obtain ⟨_, _, _, hpost, _⟩ := schedule_fx (cr := True) hi.nd h'
     obtain ⟨hi', trk⟩ := schedule_trk hi hok.1.ok hok.2 h'
     intro p hp
     obtain ⟨t', hf', hw'⟩ := hpost p hp
@@ -158,31 +170,32 @@ theorem step_ready {s s' : State} {op : Op} {o : Out} (hi : Inv s) (hok : OpOk2 
 /-! ### C06: the history invariant -/
 
 
-/-- the history invariant: `H` = all sends so far, `S` = all starts so far, `U` = all ids submitted so far -/
+/-- the history invariant: `H` = all sends so far, `S` = all starts so far, `U` = all ids submitted so far.
+(What an announced start means for the task — it stays locked — needs the worker records and the global invariant:
+`StK` in `Lemmas/CoreMsgStart.lean`.) -/
 structure Hist (s : State) (H S : List (TaskId × Nat)) (U : List TaskId) : Prop where
   nd : (taskIds s.tasks).Nodup
   mono : Mono H
   hi : ∀ p ∈ H, ∀ t ∈ s.tasks, t.id = p.1 → p.2 ≤ t.inst
-  st : St s S
   ids : ∀ t ∈ s.tasks, t.id ∈ U
   hids : ∀ p ∈ H, p.1 ∈ U
   sids : ∀ q ∈ S, q.1 ∈ U
 
 theorem Hist.init : Hist {} [] [] [] :=
-  ⟨List.nodup_nil, List.Pairwise.nil, fun _ h => (by cases h), St.nil _, fun _ h => (by cases h),
+  ⟨List.nodup_nil, List.Pairwise.nil, fun _ h => (by cases h), fun _ h => (by cases h),
     fun _ h => (by cases h), fun _ h => (by cases h)⟩
 
 theorem Hist.step {s s' : State} {H S : List (TaskId × Nat)} {U : List TaskId} {op : Op} {o : Out}
     (hh : Hist s H S U) (hfresh : ∀ x ∈ op.newIds, x ∉ U) (h : step s op = .ok (s', o)) :
     Hist s' (H ++ sends o.msgs) (S ++ starts o.cbs) (U ++ op.newIds) := by
-  obtain ⟨e, tr, st, sx⟩ := step_fx hh.nd h
+  obtain ⟨e, tr, _, sx⟩ := step_fx hh.nd h
   -- a task of `s'` whose id was submitted before descends from a task of `s`
   have old : ∀ t' ∈ s'.tasks, t'.id ∈ U → ∃ t ∈ s.tasks, TRel False (¬ op.isFailureLoss) t t' := by
     intro t' ht' hu
     rcases e t' ht' with h1 | h1
     · exact h1
     · exact absurd hu (hfresh _ h1)
-  refine ⟨step_nodup hh.nd h, ?_, ?_, ?_, ?_, ?_, ?_⟩
+  refine ⟨step_nodup hh.nd h, ?_, ?_, ?_, ?_, ?_⟩
   · unfold Mono
     rw [List.pairwise_append]
     refine ⟨hh.mono, tr.mono, ?_⟩
@@ -194,18 +207,6 @@ theorem Hist.step {s s' : State} {H S : List (TaskId × Nat)} {U : List TaskId} 
     · obtain ⟨t, ht, r⟩ := old t' ht' (hid ▸ hh.hids p h1)
       exact Nat.le_trans (hh.hi p h1 t ht (r.id ▸ hid)) r.inst
     · exact tr.hi p h1 t' ht' hid
-  · intro q hq t' ht' hid
-    rcases List.mem_append.mp hq with h1 | h1
-    · obtain ⟨t, ht, r⟩ := old t' ht' (hid ▸ hh.sids q h1)
-      -- as in `St.evo`
-      rcases hh.st q h1 t ht (r.id ▸ hid) with h2 | ⟨h2, h3⟩
-      · exact Or.inl (Nat.lt_of_lt_of_le h2 r.inst)
-      · rcases r.lock h3 with h4 | h4
-        · rcases Nat.lt_or_ge t.inst t'.inst with h5 | h5
-          · exact Or.inl (h2 ▸ h5)
-          · exact Or.inr ⟨by have := r.inst; omega, h4⟩
-        · exact Or.inl (h2 ▸ h4)
-    · exact st q h1 t' ht' hid
   · intro t' ht'
     rcases e t' ht' with ⟨t, ht, r⟩ | h1
     · exact List.mem_append_left _ (r.id ▸ hh.ids t ht)
